@@ -24,7 +24,7 @@ ASSUMPTIONS = [
     "physical 'waiting' vs 'delayed' is only distinguished for due times more than 10 ms ahead (early delivery is C05's)",
     "no time-to-live on messages here (expiry is C12's)",
 ]
-REQUIRED = ["ops", "snapshots_compared", "consume_returns", "cancel_points", "drain_audits", "jumps_to_exact_due_time", "concurrent_pairs", "empty_payload_messages", "messages_sharing_a_due_instant"]
+REQUIRED = ["ops", "snapshots_compared", "consume_returns", "cancel_points", "drain_audits", "jumps_to_exact_due_time", "concurrent_pairs", "empty_payload_messages", "messages_sharing_a_due_instant", "newcomers_while_messages_are_held"]
 SHARD_TIMEOUT = {"quick": 900, "thorough": 3600}
 CASE_TIMEOUT = 120
 
@@ -57,6 +57,9 @@ def gen_cases(tier, seed):
             for victim in ((3, 1) if tier == "quick" else (3, 2, 1, 0)):
                 cases.append({"type": "concurrent", "kind": kind, "op": settle_op, "victim": victim, "offsets": 16 if tier == "quick" else 32, "seed": seed,
                               "latency": None if kind == "mem" else 0.002})
+    # other clients come and go while a consumer holds messages with execution timeouts of seconds to days
+    for kind in KINDS:
+        cases.append({"type": "newcomer", "kind": kind, "waits": [1.5, 3.0, 61.0], "seed": seed, "latency": None if kind == "mem" else 0.002})
     return cases
 
 
@@ -894,11 +897,78 @@ async def concurrent_scenario(loop, case, off, first, out, stats):
         rig.close()
 
 
+async def newcomer_scenario(loop, case, out, stats, fps):
+    """A consumer holds messages whose execution timeouts run from seconds to days; other clients connect and disconnect (on
+    Redis each of those runs the broker's maintenance): every held message stays where it is - held, once - and nothing of it
+    is offered to a fresh consumer."""
+    from datetime import timedelta as _td
+
+    from repid.message import MessageCategory
+    from rv.rigs import Rig, key_of
+
+    kind = case["kind"]
+    rig = Rig(kind, loop, latency=case["latency"], seed=case["seed"])
+    try:
+        conn = rig.make_connection("p1")
+        await conn.connect()
+        mb = conn.message_broker
+        await mb.queue_declare("q")
+        P = mb.PARAMETERS_CLASS
+        timeouts = {"t10m": _td(minutes=10), "t1d": _td(days=1), "t25h": _td(hours=25), "t2d": _td(days=2), "t7d1s": _td(days=7, seconds=1), "t90s": _td(seconds=90)}
+        for id_, to in timeouts.items():
+            await mb.enqueue(key_of(conn, id_, "t", "q"), "p", P(execution_timeout=to))
+        A = mb.get_consumer("q", None, None, MessageCategory.NORMAL)
+        await A.start()
+        held = {}
+        for _ in timeouts:
+            key, _pl, _pr = await asyncio.wait_for(A.consume(), 10)
+            held[key.id_] = key
+        for wait in case["waits"]:
+            await asyncio.sleep(wait)
+            await rig.quiesce_wire()
+            newcomer = rig.make_connection(f"n{wait}")
+            await newcomer.connect()
+            B = newcomer.message_broker.get_consumer("q", None, None, MessageCategory.NORMAL)
+            await B.start()
+            got = None
+            try:
+                k2, _pl, _pr = await asyncio.wait_for(B.consume(), 2.5 if kind == "redis" else 0.8)
+                got = k2.id_
+            except asyncio.TimeoutError:
+                pass
+            await B.finish()
+            await newcomer.disconnect()
+            stats["snapshots_compared"] += 1
+            stats["newcomers_while_messages_are_held"] += 1
+            snap = rig.snapshot()
+            bad = {i: snap.get(i) for i in timeouts if snap.get(i) != ["held"]}
+            fps.append(f"newcomer/{kind}/{wait}")
+            if got is not None or bad:
+                out.append(V("duplicated", kind, "newcomer-while-held", f"consumer A holds {sorted(timeouts)} (execution timeouts 90 s ... 7 days); {wait}s later a second client connected and looked at the queue: "
+                                                                         f"it was handed {got!r}; places {bad or 'all held'}"))
+                break
+        for k in held.values():
+            await mb.ack(k)
+        await A.finish()
+        await conn.disconnect()
+        stats["unknown_server_commands"] += rig.unknown_commands()
+    finally:
+        rig.close()
+
+
 def run_case(case):
     from rv.sim import loop as vl
 
     stats = collections.Counter()
     out: list = []
+    if case["type"] == "newcomer":
+        fps = []
+        res = vl.run(lambda loop: newcomer_scenario(loop, case, out, stats, fps), max_steps=2_000_000, seed=case["seed"])
+        if res.exc is not None:
+            out.append(V("harness_or_api_error", case["kind"], "newcomer", f"{type(res.exc).__name__}: {res.exc}"))
+        if stats.get("unknown_server_commands"):
+            return {"fp": None, "viol": [], "stats": dict(stats), "inconclusive": "fake server saw unknown commands"}
+        return {"fp": None, "fps": fps, "viol": out[:6], "stats": dict(stats)}
     if case["type"] == "concurrent":
         fps = []
         for off in range(case["offsets"]):
